@@ -719,7 +719,9 @@ class Document:
         :param preferred_column: When given, go to this column instead of
                                  staying at the current column.
         """
-        assert count >= 1
+        if count < 0:
+            # A negative repeat count (Meta-minus in Emacs mode) moves the other way.
+            return self.get_cursor_down_position(-count, preferred_column)
         column = (
             self.cursor_position_col if preferred_column is None else preferred_column
         )
@@ -741,7 +743,9 @@ class Document:
         :param preferred_column: When given, go to this column instead of
                                  staying at the current column.
         """
-        assert count >= 1
+        if count < 0:
+            # A negative repeat count (Meta-minus in Emacs mode) moves the other way.
+            return self.get_cursor_up_position(-count, preferred_column)
         column = (
             self.cursor_position_col if preferred_column is None else preferred_column
         )
